@@ -301,3 +301,123 @@ impl Version {
 //@ >>
 //@ end
 }
+
+// ---------------------------------------------------------------- the two layers above Version::load
+struct LsmTree { file_manager: FileManager, sst_cache: LeastRecentlyUsedCache<Setsum, CachedSst> }
+// Arc<Version> read as Version
+struct VersionRef<'a> { tree: &'a LsmTree, version: Version }
+spec fn version_pre(v: Version, key: Seq<u8>) -> bool {
+    &&& v.levels@.len() >= 1
+    &&& history_is_ordered() ==> ordered(v)
+    &&& forall|i: int| 1 <= i < v.levels@.len() ==> #[trigger] v.levels@[i].window_ok(key)
+}
+impl VersionRef<'_> {
+//@ extract lsmtk/src/tree/mod.rs | impl VersionRef<'_> :: fn load
+//@ ret r
+//@ pre <<
+        version_pre(self.version, key@),
+//@ >>
+//@ post <<
+        r is Ok ==> reads(all_ents(self.version), key@, timestamp, r->Ok_0, *final(is_tombstone)),
+//@ >>
+//@ end
+}
+
+// the memtable: a lock-free skiplist ordered by (key ascending, timestamp descending); `seek` to (key, t) lands on the
+// newest version <= t (ASSUMED: skipfree is outside the verifier's reach, C17)
+#[verifier::external_body]
+struct MemTable { _p: u8 }
+impl MemTable {
+    uninterp spec fn ents(&self) -> ES;
+//@ extract lsmtk/src/kvs/memtable.rs | impl MemTable :: fn load
+//@ ret r
+//@ pre <<
+        !*old(is_tombstone),
+//@ >>
+//@ post <<
+        r is Ok ==> reads(self.ents(), key@, timestamp, r->Ok_0, *final(is_tombstone)),
+//@ >>
+//@ external-body
+//@ end
+}
+// what KeyValueStore::load reads under its state lock: Arc clones of the two memtables, a tree snapshot, the sequence number
+struct Snapshot<'a> { mem: MemTable, imm: Option<MemTable>, version: VersionRef<'a>, timestamp: u64 }
+#[verifier::external_body]
+struct KeyValueStore { _p: u8 }
+spec fn snap_ents(s: Snapshot<'_>) -> ES {
+    ISet::new(|e: Entry| s.mem.ents().contains(e) || (s.imm is Some && s.imm->Some_0.ents().contains(e)) || all_ents(s.version.version).contains(e))
+}
+// writes reach the memtable with increasing sequence numbers, the immutable memtable is older, the tree older still
+spec fn snap_ordered(s: Snapshot<'_>) -> bool {
+    &&& s.imm is Some ==> newer(s.mem.ents(), s.imm->Some_0.ents()) && newer(s.imm->Some_0.ents(), all_ents(s.version.version))
+    &&& newer(s.mem.ents(), all_ents(s.version.version))
+}
+proof fn lemma_first_of(a: ES, rest: ES, all: ES, k: Seq<u8>, t: u64, r: Option<Vec<u8>>, tomb: bool)
+    requires reads(a, k, t, r, tomb), r is Some || tomb, newer(a, rest),
+        forall|e: Entry| all.contains(e) <==> a.contains(e) || rest.contains(e),
+    ensures reads(all, k, t, r, tomb)
+{
+    assert forall|e: Entry| is_newest(a, k, t, e) implies is_newest(all, k, t, e) by { }
+    lemma_reads_lift(a, all, k, t, r, tomb);
+}
+proof fn lemma_skip(a: ES, rest: ES, all: ES, k: Seq<u8>, t: u64, r: Option<Vec<u8>>, tomb: bool)
+    requires !has_le(a, k, t), reads(rest, k, t, r, tomb),
+        forall|e: Entry| all.contains(e) <==> a.contains(e) || rest.contains(e),
+    ensures reads(all, k, t, r, tomb)
+{
+    assert forall|e: Entry| is_newest(rest, k, t, e) implies is_newest(all, k, t, e) by {
+        assert forall|e2: Entry| all.contains(e2) && e2.key == k && e2.ts <= t implies e2.ts <= e.ts by {
+            if a.contains(e2) { assert(has_le(a, k, t)); }
+        }
+    }
+    if r is Some || tomb { lemma_reads_lift(rest, all, k, t, r, tomb); }
+    else {
+        if has_le(all, k, t) {
+            let e = choose|e: Entry| all.contains(e) && e.key == k && e.ts <= t;
+            if a.contains(e) { assert(has_le(a, k, t)); } else { assert(has_le(rest, k, t)); }
+        }
+    }
+}
+impl KeyValueStore {
+    uninterp spec fn snap_spec(&self) -> Snapshot<'_>;
+    // `{ let state = self.state.lock().unwrap(); (Arc::clone(&state.mem), state.imm.clone(), self.tree.take_snapshot(), state.seq_no) }`
+    #[verifier::external_body]
+    fn snapshot(&self) -> (r: (MemTable, Option<MemTable>, VersionRef<'_>, u64))
+        ensures r.0 == self.snap_spec().mem, r.1 == self.snap_spec().imm, r.2 == self.snap_spec().version, r.3 == self.snap_spec().timestamp,
+    { unimplemented!() }
+
+//@ extract lsmtk/src/kvs/mod.rs | impl KeyValueStore :: fn load
+//@ ret r
+//@ rewrite-re X7 `let \(mem, imm, version, timestamp\) = \{\s*let state = self\.state\.lock\(\)\.unwrap\(\);\s*let mem = Arc::clone\(&state\.mem\);\s*let imm = state\.imm\.clone\(\);\s*let version = self\.tree\.take_snapshot\(\);\s*\(mem, imm, version, state\.seq_no\)\s*\};` => `let (mem, imm, version, timestamp) = self.snapshot();`
+//@ pre <<
+        version_pre(self.snap_spec().version.version, key@),
+        snap_ordered(self.snap_spec()),
+//@ >>
+//@ post <<
+        r is Ok ==> reads(snap_ents(self.snap_spec()), key@, self.snap_spec().timestamp, r->Ok_0, *final(is_tombstone)),
+//@ >>
+//@ bodystart <<
+        let ghost sn = self.snap_spec();
+        let ghost k = key@;
+        let ghost tree = all_ents(sn.version.version);
+        let ghost rest1 = ISet::new(|e: Entry| (sn.imm is Some && sn.imm->Some_0.ents().contains(e)) || tree.contains(e));
+        let ghost all = snap_ents(sn);
+//@ >>
+//@ before#1 `return Ok(ret);` <<
+            proof { lemma_first_of(sn.mem.ents(), rest1, all, k, sn.timestamp, ret, *is_tombstone); }
+//@ >>
+//@ before#2 `return Ok(ret);` <<
+                proof {
+                    lemma_first_of(sn.imm->Some_0.ents(), tree, rest1, k, sn.timestamp, ret, *is_tombstone);
+                    lemma_skip(sn.mem.ents(), rest1, all, k, sn.timestamp, ret, *is_tombstone);
+                }
+//@ >>
+//@ after `let ret = version.load(key, timestamp, is_tombstone)?;` <<
+        proof {
+            if sn.imm is Some { lemma_skip(sn.imm->Some_0.ents(), tree, rest1, k, sn.timestamp, ret, *is_tombstone); }
+            else { assert(rest1 =~= tree); }
+            lemma_skip(sn.mem.ents(), rest1, all, k, sn.timestamp, ret, *is_tombstone);
+        }
+//@ >>
+//@ end
+}
